@@ -327,10 +327,10 @@ ReqOf(o, l) ==
                 /\ l.N - l.rE >= 1
                 /\ l.kind = "fixed" => l.n <= l.N - l.rE
              THEN {"ExtIntRemovedWhenEnoughStreamsSacrificed"} ELSE {})
-       \* dominant interference: a deciding metric cannot prefer streams inside the interference subspace
-       \* (beyond the statement; makes the removal clause non-vacuous for the deciding metrics)
-       \cup (IF l.kind = "decided" /\ l.pe = "huge" /\ l.N - l.rE >= 1
-             THEN {"DecidedCountAvoidsDominantInterference"} ELSE {})
+       \* (a law "under dominant interference a deciding metric keeps at most N - rE streams" was required here for one round;
+       \* it is no theorem - the interference-free direction may carry a weaker signal than a direction inside the
+       \* interference subspace, and the metric then rightly prefers two streams - and it demanded more than the statement:
+       \* withdrawn, see notes/C09.md)
 Required == ReqOf(obj, last)
 
 (* ---------------------------------- laws of the machine ----------------------------------------- *)
